@@ -324,7 +324,14 @@ func c02Explore(sp *c02Spec, first []EngOp, env *fw.Env, unit string, res *fw.Re
 				}
 				lo, hi := acked, n
 				if !sync {
+					// without synchronous logging only a clean close makes writes durable: everything up to the
+					// last completed close + reopen must be there
 					lo = 0
+					for i, op := range prog[:acked] {
+						if op.Kind == "reopen" {
+							lo = i + 1
+						}
+					}
 				}
 				res.Evaluations++
 				if cut > start && cut < len(r.Log) {
@@ -647,7 +654,7 @@ func init() {
 	fw.Register(&fw.Check{
 		ID:    "C02",
 		Level: "fault_enumeration",
-		Rule: "explicit-state search over engine programs {put a, put b, del a, 2-key commit, flush, bg, reopen, compact} up to the depth per configuration (sync immediate/none/batch, memtable 32 MiB / 1 B incl. max-memtables 2); every file-system call of the run is recorded; for each program every crash state inside its last operation is materialised (all prefixes of the call log, plus torn variants of every write: all lengths for writes <=512 B, else record boundaries +-8, page multiples, first/last 64) and opened with the real engine. Oracle: the recovered state (gets and scan) equals the model after j operations for an admissible j (acked <= j <= issued with synchronous logging, 0 <= j <= issued otherwise, a transaction counts as one operation); then 2 writes, clean close, reopen: state and sequence stamps continue correctly. Raw-batch sub-run: a batch with repeated keys (put/put, put/delete, delete/put under one sequence number) through the engine's batch call, followed by <=1 (2 thorough) steps of {put, flush, bg, reopen}, memtable 1 B / 40 B. Shape sub-run (sync immediate / none / batch): a 90 KB three-entry commit or a 70 KB put issued behind one or two small writes (or behind another such commit), followed by one of {put, delete, reopen, flush}, same crash enumeration inside the large write and inside the step after it. Double-crash sub-run (sync immediate / none, memtable 32 MiB / 1 B): after {put a, put b} or {put a, commit(put b, del a)} the process dies at every cut / torn length of the last operation, restarts on that state, and dies again at every cut / torn length of the recovery and of the first write after it; the second recovery must show the state the first one showed, with or without the new write, and continue correctly. Non-trivial = crash cuts strictly inside an operation",
+		Rule: "explicit-state search over engine programs {put a, put b, del a, 2-key commit, flush, bg, reopen, compact} up to the depth per configuration (sync immediate/none/batch, memtable 32 MiB / 1 B incl. max-memtables 2); every file-system call of the run is recorded; for each program every crash state inside its last operation is materialised (all prefixes of the call log, plus torn variants of every write: all lengths for writes <=512 B, else record boundaries +-8, page multiples, first/last 64) and opened with the real engine. Oracle: the recovered state (gets and scan) equals the model after j operations for an admissible j (acked <= j <= issued with synchronous logging, last completed clean close <= j <= issued otherwise, a transaction counts as one operation); then 2 writes, clean close, reopen: state and sequence stamps continue correctly. Raw-batch sub-run: a batch with repeated keys (put/put, put/delete, delete/put under one sequence number) through the engine's batch call, followed by <=1 (2 thorough) steps of {put, flush, bg, reopen}, memtable 1 B / 40 B. Shape sub-run (sync immediate / none / batch): a 90 KB three-entry commit or a 70 KB put issued behind one or two small writes (or behind another such commit), followed by one of {put, delete, reopen, flush}, same crash enumeration inside the large write and inside the step after it. Double-crash sub-run (sync immediate / none, memtable 32 MiB / 1 B): after {put a, put b} or {put a, commit(put b, del a)} the process dies at every cut / torn length of the last operation, restarts on that state, and dies again at every cut / torn length of the recovery and of the first write after it; the second recovery must show the state the first one showed, with or without the new write, and continue correctly. Non-trivial = crash cuts strictly inside an operation",
 		Assumptions: []string{"process-death crash model: completed writes survive, fsync is irrelevant, power loss is not modelled", "single client; background flush runs at explicit bg steps"},
 		Units: func(tier string) []string {
 			var us []string
